@@ -11,11 +11,88 @@ ASSUMPTIONS = c01.ASSUMPTIONS + [
 ]
 
 
+def take_chain_matrix(tier):
+    """Enumerated: two (thorough: also three) sort | take steps in a row - every pairing of sort keys and directions
+    (same columns with a direction flipped, different columns, a prefix of the other) x take forms (n, a..b, a..)
+    x what stands between the steps (nothing, derive, filter) x what follows the last take (nothing, select,
+    group with a window function, group-aggregate, filter, join, a let boundary)."""
+    from . import c04
+    col = lambda n: ["col", None, n]
+    sorts = {"id": [[False, col("id")]], "-id": [[True, col("id")]], "a,id": [[False, col("a")], [False, col("id")]],
+             "-a,id": [[True, col("a")], [False, col("id")]], "a,-id": [[False, col("a")], [True, col("id")]],
+             "-a,-id": [[True, col("a")], [True, col("id")]], "k,id": [[False, col("k")], [False, col("id")]], "-k,-id": [[True, col("k")], [True, col("id")]]}
+    takes1 = [(None, 5), (2, 6), (3, None)] if tier != "quick" else [(None, 5), (2, 6)]
+    takes2 = [(None, 2), (2, 3), (2, None)] if tier != "quick" else [(None, 2), (2, 3)]
+    mids = {"none": [], "derive": [{"t": "derive", "items": [["x", ["bin", "+", col("a"), ["lit", 1]]]]}],
+            "filter": [{"t": "filter", "cond": ["bin", ">", col("id"), ["lit", 1]]}]}
+    tails = {
+        "none": [],
+        "select": [{"t": "select", "items": [[None, col("id")], [None, col("a")]]}],
+        "group_window": [{"t": "group", "keys": [col("k")], "pipe": [{"t": "derive", "items": [["r", ["win", "rank", [col("a")]]]]}]}],
+        "group_id_window": [{"t": "group", "keys": [col("id")], "pipe": [{"t": "derive", "items": [["r", ["win", "rank", [col("a")]]]]}]},
+                            {"t": "select", "items": [[None, col("id")], [None, col("a")]]}],
+        "group_aggregate": [{"t": "group", "keys": [col("k")], "pipe": [{"t": "aggregate", "items": [["n", ["agg", "count", None]], ["m", ["agg", "max", col("id")]]]}]}],
+        "filter": [{"t": "filter", "cond": ["bin", "!=", col("id"), ["lit", 3]]}],
+        "join": [{"t": "join", "src": {"k": "table", "name": "t3"}, "alias": "j", "side": "left", "cond": ["bin", "==", col("id"), ["col", "j", "d"]]},
+                 {"t": "select", "items": [[None, col("id")], [None, ["col", "j", "e"]]]}],
+        "aggregate": [{"t": "aggregate", "items": [["n", ["agg", "count", None]], ["m", ["agg", "min", col("id")]], ["x", ["agg", "max", col("id")]]]}],
+    }
+    def tk(r):
+        return {"t": "take", "lo": r[0], "hi": r[1], "plain": r[0] is None}
+    head = [{"t": "from", "src": {"k": "table", "name": "t2"}, "alias": None},
+            {"t": "select", "items": [[None, col("id")], [None, col("k")], [None, col("a")], [None, col("c")]]}]
+    progs = []
+    for n1, s1 in sorts.items():
+        for n2, s2 in sorts.items():
+            for r1 in takes1:
+                for r2 in takes2:
+                    for mn, mid in mids.items():
+                        if tier == "quick" and mn != "none" and (r1, r2) != (takes1[0], takes2[0]):
+                            continue
+                        for tn, tail in tails.items():
+                            body = [{"t": "sort", "keys": s1}, tk(r1)] + mid + [{"t": "sort", "keys": s2}, tk(r2)] + tail
+                            progs.append({"lets": [], "main": head + body, "cuts": []})
+                            if tn in ("none", "group_window") and mn == "none":
+                                # the same steps behind a let boundary
+                                progs.append({"lets": [["p", head + body[:2 + len(mid)]]],
+                                              "main": [{"t": "from", "src": {"k": "let", "name": "p"}, "alias": None}] + body[2 + len(mid):], "cuts": []})
+    if tier != "quick":
+        names = list(sorts)
+        for i, n1 in enumerate(names):
+            for n2 in names:
+                for n3 in names[i % 3::3]:
+                    for tn in ("none", "group_window", "select"):
+                        body = [{"t": "sort", "keys": sorts[n1]}, tk((None, 7)), {"t": "sort", "keys": sorts[n2]}, tk((2, 5)), {"t": "sort", "keys": sorts[n3]}, tk((None, 2))] + tails[tn]
+                        progs.append({"lets": [], "main": head + body, "cuts": []})
+    db = dict(c04.MATRIX_DB)
+    db["t3"] = {"cols": ["k", "d", "e"], "types": ["int", "int", "text"], "rows": [[1, 2, "p"], [2, 5, "q"], [3, 5, "r"], [4, 77, "s"]]}
+    return db, progs
+
+
+def matrix_phase(run, tier, seed):
+    from .. import core
+    db, progs = take_chain_matrix(tier)
+    N = core.NCPU
+    kws = [dict(prop="C03", seed=seed, shard=i, n_cases=0, profile="sort", props=PROPS | {"C01"}, fixed=[(db, progs[i::N])], reduce_budget=12) for i in range(N)]
+    res = core.run_shards(relcheck.explore_shard, kws)
+    obs = relcheck.merge_obs([o for _, o in res])
+    for v, _ in res:
+        run.extend(v)
+    run.coverage["take_chain_matrix"] = {"programs": len(progs), "executions": obs.get("cases", 0), "judged": obs.get("judged", 0), "unspecified": obs.get("unspecified", 0),
+                                         "rejected": obs.get("rejected", 0), "engine_unsupported": obs.get("engine_unsupported", 0),
+                                         "cells": "8 sorts x 8 sorts x take forms x {nothing, derive, filter} between x 8 continuations (+ the same behind a let; thorough: three steps)"}
+    run.coverage["evaluations"] = run.coverage.get("evaluations", 0) + obs.get("cases", 0)
+    run.coverage["judged_against_model"] = run.coverage.get("judged_against_model", 0) + obs.get("judged", 0)
+    run.coverage["ordered_results"] = run.coverage.get("ordered_results", 0) + obs.get("ordered_results", 0)
+    run.coverage["distinct_nontrivial"] = run.coverage.get("distinct_nontrivial", 0) + len(obs.get("nontrivial", []))
+
+
 def run(tier, seed):
     r = c01.explore("C03", PROPS | {"C01"}, [("sort", 0.8), ("boundary_nowin", 0.3), ("shared", 0.5)], tier, seed, 900, 40000, ASSUMPTIONS,
                     "For C03 the deciding executions are those whose model result is ordered (ordered_results) or keeps the left order through a right/full join (partially_ordered_results).")
     # 'take n and take a..b return exactly the rows at those positions': in this sort/take-centred workload a
     # difference in WHICH rows come back is a C03 matter too; defects of that kind already listed for C01 apply
+    matrix_phase(r, tier, seed)
     for v in r.violations:
         v["property"] = "C03"
     r.borrow_findings("C01")
